@@ -488,7 +488,30 @@ impl<'tcx> Ex<'tcx> {
                     .ok()
                     .map(|l| l.size.bytes() as usize);
                 match size.and_then(|s| self.alloc_bytes(alloc_id, offset.bytes() as usize, s)) {
-                    Some(b) if b.len() <= 4096 => J::obj(vec![("bytes", J::s(hex(&b))), ("len", J::Int(b.len() as i128))]),
+                    Some(b) if b.len() <= 4096 => {
+                        let mut o = vec![("bytes", J::s(hex(&b))), ("len", J::Int(b.len() as i128))];
+                        // pointers stored inside the constant: what they point to (a static, or the bytes of a promoted value)
+                        let mut relocs = Vec::new();
+                        if let Some(GlobalAlloc::Memory(a)) = self.tcx.try_get_global_alloc(alloc_id) {
+                            for (off, prov) in a.inner().provenance().ptrs().iter() {
+                                let target = match self.tcx.try_get_global_alloc(prov.alloc_id()) {
+                                    Some(GlobalAlloc::Static(def)) => J::obj(vec![("static", J::s(self.tcx.def_path_str(def)))]),
+                                    Some(GlobalAlloc::Memory(m)) => {
+                                        let m = m.inner();
+                                        let n = m.len().min(256);
+                                        J::obj(vec![("mem", J::s(hex(m.inspect_with_uninit_and_ptr_outside_interpreter(0..n)))), ("len", J::Int(m.len() as i128))])
+                                    }
+                                    Some(GlobalAlloc::Function { instance }) => J::obj(vec![("fn", J::s(self.tcx.def_path_str(instance.def_id())))]),
+                                    _ => J::obj(vec![("other", J::s("?"))]),
+                                };
+                                relocs.push(J::obj(vec![("off", J::Int(off.bytes() as i128)), ("to", target)]));
+                            }
+                        }
+                        if !relocs.is_empty() {
+                            o.push(("relocs", J::Arr(relocs)));
+                        }
+                        J::obj(o)
+                    }
                     _ => J::obj(vec![("other", J::s("indirect"))]),
                 }
             }
